@@ -161,6 +161,45 @@ pub mod stdspecs {
                 &&& (r.unwrap()@.len() == s.len() ==> splitn_done(final(it)))
             });
 
+    // ---- str::splitn(n, c) with an ASCII char separator ---------------------------------------------------------
+    // str::splitn is generic over the unstable `Pattern` trait, whose generic associated type Verus cannot declare, so the call is
+    // redirected (rule R19) to this wrapper, whose body is the call itself.  Splitting a str at an ASCII char is splitting its
+    // bytes at that byte (no byte of a multi-byte UTF-8 sequence is below 128).  Trusted like the T4 specifications.
+    #[verifier::external_body]
+    pub struct VxStrSplitN<'a>(core::str::SplitN<'a, char>);
+
+    impl<'a> VxStrSplitN<'a> {
+        pub uninterp spec fn rest(&self) -> Seq<u8>;
+        pub uninterp spec fn done(&self) -> bool;
+        pub uninterp spec fn count(&self) -> nat;
+        pub uninterp spec fn sep(&self) -> u8;
+
+        /// count 0: None; count 1: the whole rest; otherwise the piece before the first separator
+        #[verifier::external_body]
+        pub fn next(&mut self) -> (r: Option<&'a str>)
+            ensures
+                final(self).sep() == old(self).sep(),
+                final(self).count() == (if old(self).count() == 0 { 0nat } else { (old(self).count() - 1) as nat }),
+                old(self).count() == 0 ==> r is None && final(self).done() == old(self).done() && final(self).rest() == old(self).rest(),
+                old(self).count() > 0 && old(self).done() ==> r is None && final(self).done(),
+                old(self).count() == 1 && !old(self).done() ==> r is Some && str_bytes(r.unwrap()) == old(self).rest() && final(self).done(),
+                old(self).count() > 1 && !old(self).done() ==> ({
+                    let s = old(self).rest();
+                    let k = first_of(s, old(self).sep(), 0);
+                    &&& r is Some
+                    &&& str_bytes(r.unwrap()) == s.subrange(0, k)
+                    &&& (k < s.len() ==> !final(self).done() && final(self).rest() == s.subrange(k + 1, s.len() as int))
+                    &&& (k >= s.len() ==> final(self).done())
+                }),
+        { self.0.next() }
+    }
+
+    #[verifier::external_body]
+    pub fn vx_str_splitn<'a>(s: &'a str, n: usize, c: char) -> (r: VxStrSplitN<'a>)
+        requires (c as u32) < 128,
+        ensures r.rest() == str_bytes(s), !r.done(), r.count() == n as nat, r.sep() as u32 == c as u32,
+    { VxStrSplitN(s.splitn(n, c)) }
+
     /// with such a predicate, one split step cuts at the first occurrence of c
     pub proof fn lemma_split_step_first_of<P: FnMut(&u8) -> bool>(p: P, c: u8, s: Seq<u8>, k: int)
         requires decides_eq(p, c), split_step(p, s, k)
